@@ -6,6 +6,42 @@ HERE = os.path.dirname(os.path.abspath(__file__))
 TECH = "deterministic simulation with fault injection: seeded search over schedules, fault scripts and workloads (blsim discrete-event simulator, libc clock/entropy seams), oracle = reference model / ground truth, failures minimised to a replay file"
 
 CLAIMED = {
+ "C06": dict(
+   text="Seeded search over simulated aggregation runs: n signers send (pk, msg, sig) to an aggregator through loss, duplication and reordering (with and without de-duplication at the aggregator); verifiers check the aggregate against the exact list, permutations, and one of 12 relay perturbations (message/key altered, pair dropped/added/duplicated/replaced, messages swapped between signers, keys swapped). The library's decision is compared on every list with a reference CoreAggregateVerify under the tree's own tags plus the Basic distinct-message rule; exact lists must verify in any order; single-position perturbations must fail; fewer than two or mixed schemes (every position, aligned runs) must be refused. n walks 2..=64.",
+   note="Trusted: reference arithmetic. 'For all n in 2..=64' is covered by the every-n class (a few in quick, all in thorough).",
+   ref="DESIGN.md §4 C06"),
+ "C07": dict(
+   text="As C06 for multi-signatures over one message under Basic and PoP: the accumulated signature must equal the plain group sum of the accumulated parts (a duplicated contribution counted twice), verify against the accumulated key of exactly those contributions in any order, and fail for every single-signer omission, re-addition, replacement, stranger addition and for another message; accumulation must refuse augmentation signatures, mixed schemes at every position and fewer than two inputs.",
+   note="Trusted: reference arithmetic for the group sum.",
+   ref="DESIGN.md §4 C07"),
+ "C11": dict(
+   text="Seeded search over simulated encryptor/recipient runs: ciphertexts for messages of length 0..40, 100..140, the LEB128 boundaries and up to 64 KiB, all schemes and groups, stored on the recipient's disk in 6 codecs across crash/restart and duplicated deliveries; a relay applies one of 23 perturbations (u, v bit / length prefix / truncation / extension, w, label, splices from another ciphertext, in-flight truncation / extension / bit flip). Untouched value => valid and exact plaintext through both decrypt paths; changed value => invalid and nothing; the validity flag gates decryption; another key never returns the original. Every single-bit flip of the byte encoding of short-message ciphertexts is enumerated.",
+   note="'Value changed' is judged on the decoded value (e.g. a scheme byte >= 2 is the same label), using an independent field-level parser of the documented layout.",
+   ref="DESIGN.md §4 C11"),
+ "C12": dict(
+   text="Seeded search over t-of-n decryption-share runs for all three ciphertext schemes: shares travel to a combiner under loss, duplication and reordering; every arrival prefix is decrypted directly and through a combined key. Each honest share must verify against its own key share and ciphertext and fail against another participant's key share and another ciphertext; >= t distinct shares give the exact message on both paths; < t never the original. 2<=t<=n<=5 x 3 schemes x 2 groups x every subset (in drawn orders) is enumerated completely.",
+   note="'Fewer than t never return the original' is checked on the explored subsets (messages >= 4 bytes), not as a secrecy proof.",
+   ref="DESIGN.md §4 C12"),
+ "C13": dict(
+   text="Seeded search over simulated rounds: encryptors seal to (key, round identifier, scheme); a beacon releases the round signature either with the whole key or recombined from t-of-n partial signatures that crossed a lossy/duplicating transport; holders decrypt on arrival. Correct signature => exact message; another round, key, scheme, relabelled or identity signature => nothing; a relay alters u, v, the authenticated prefix of w (length prefix + message), the padding, the length or the label: never a different message, and nothing at all when header, label or authenticated prefix changed. Every single-bit flip of short-message ciphertexts is enumerated.",
+   note="Truncation below the authenticated prefix and framing damage are only required not to yield a different message. The checker knows the message length and so which bytes of w are authenticated.",
+   ref="DESIGN.md §4 C13"),
+ "C14": dict(
+   text="Seeded search over simulated tallies: up to 16 voters encrypt scalars (incl. 1, r-1) with and without proof; ballots reach the tally in any order under loss, duplication and delay; the tally adds what arrived through all six addition operators. Conservation oracle: the sum decrypts (whole key, and a key recombined from a drawn t-of-n share subset in drawn order) to exactly the sum of the included plaintexts times H, H = hash-to-curve of the base point under the exposed tag. Honest proofs verify and verify-and-decrypt; each of 16 single-component perturbations of (c1, c2, message_proof, blinder_proof, challenge, pk) is rejected; a non-matching secret fails.",
+   note="Trusted: reference arithmetic for m*H and the generator.",
+   ref="DESIGN.md §4 C14"),
+ "C15": dict(
+   text="In every run a vault persists one value of each of the 28 exported types (x scheme variants x edge values: identity points, scalars 1 / r-1, timestamps 0 / 2^63 / u64::MAX, share identifiers incl. 1 and 255, payloads 0 B..64 KiB) in every codec the type offers (4 byte-container conversions, serde_bare, serde_json, big/little-endian for scalar types and the curve-tagged key wrapper), crashes, restarts, reloads and compares (canonical bytes and the type's PartialEq), and forwards to a second vault in another codec; encoding twice gives identical bytes; fixed-size types have one length per (type, group, codec). The type x group x scheme x codec table is enumerated in every run; values within a cell are seeded.",
+   note="Nothing here depends on interleaving; the crash/restart/forward structure makes every type pass through every decoder. The curve-tagged wrapper's reference form is its JSON form (its byte form is under test).",
+   ref="DESIGN.md §4 C15"),
+ "C16": dict(
+   text="A Byzantine encoder replaces, at every point position of every type in bytes / serde_bare / serde_json, the point by an on-curve point outside the subgroup, an x with no curve point, and four flag/range violations (manufactured with the reference crate's unchecked decompression); torn and short writes produce every strict prefix; exact-length types get other lengths; byte importers of secrets and challenges get zero, r and 2r; share containers with invalid payloads are sent to every use site (from_shares x4, both share verifiers). Oracle: error everywhere; plus corrupted/random byte strings whose accepted outputs are re-checked point by point (on curve, in subgroup).",
+   note="Serde import of a zero secret key is not in the statement (it speaks of import from bytes) and is not asserted. Trusted: bls12_381_plus point classification.",
+   ref="DESIGN.md §4 C16"),
+ "C17": dict(
+   text="Every library call of every party in every scenario runs under catch_unwind with a panic hook recording file:line, and a watchdog reports a worker without progress for 120 s. Dedicated hostile-input runs feed every decoder (28 types x all codecs) with every truncation length, bit flips, extensions, hex-digit corruption and degenerate JSON, then call every accessor / verify / decrypt / combination on whatever decoded; valid signcryption and time-lock envelopes around attacker-chosen framing bytes (all-0xFF varints, length > payload, empty payload); 14 timestamp x 9 timeout x 5 clock-skew classes; all 256 byte-OR values of the zero test; plus the tamper/Byzantine classes of all other scenarios. Everything runs in the release profile and in a profile with debug assertions and overflow checks.",
+   note="Unwinds inside a dependency reached through a blsful decoder count. The HKDF zero-output retry loop is unreachable by input and not claimed.",
+   ref="DESIGN.md §4 C17"),
  "C01": dict(
    text="Seeded search over simulated client/signer/verifier runs: request loss, duplication, late duplicates, client retries, signer crash and restart with the key reloaded from its durable encoding (8 key codecs), responses carried in 6 codecs. Invariants: signing succeeds, is byte-identical across retries/duplicates/restarts, every verifier accepts, also after one more encoding round trip of key, public key and signature. The grid key class x 18 message-length classes x scheme x group is enumerated completely in both tiers.",
    note="The universal 'for all sk, msg' is reached by the edge-biased grid and seeded content, i.e. by generation; the simulator contributes the retry/restart/duplicate histories and the durable-key reload. Trusted: harness transport/disk.",
